@@ -32,7 +32,9 @@ RefV(e, i)     == Valid(UnitEnv(e.unit), e.unit.schema, e.unit.docs[i], {}, "dec
 \* selection and in-place bound removal (spec/IntSize.tla) inside the wrapper pipeline of spec/Units.tla
 SizedUnit(un) == "opts" \in DOMAIN un /\ "minSizedInts" \in DOMAIN un.opts /\ un.opts.minSizedInts /\ un.prop = "C15"
 ImplV(e, i, D) ==
-  IF SizedUnit(e.unit)
+  IF SizedUnit(e.unit) /\ e.unit.pos = "allofshared"
+  THEN B3(ImplSharedPos(e.unit.docs[i], e.unit.defs[1].s.properties[1].s, TRUE, D))
+  ELSE IF SizedUnit(e.unit)
   THEN B3(ImplPos(e.unit, e.unit.docs[i], LAMBDA v : ImplSizedAccepts(Leaf(e.unit), v, TRUE, D)))
   ELSE Valid(UnitEnv(e.unit), e.unit.schema, e.unit.docs[i], D, "decl", NoLim)
 ObsV(r)        == IF r.err \/ r.panic THEN Rej ELSE Acc
@@ -141,7 +143,7 @@ SizedTypeClass(e) ==
      ELSE IF g = pred(Devs) /\ pred({}) # g THEN "known"
      ELSE "violation"
 IsSized(e) == "opts" \in DOMAIN e.unit /\ "minSizedInts" \in DOMAIN e.unit.opts /\ e.unit.opts.minSizedInts
-              /\ e.unit.prop = "C15" /\ Judge # "build"
+              /\ e.unit.prop = "C15" /\ Judge # "build" /\ e.unit.pos # "allofshared"
 TypeReport(n, e, c) ==
   PrintT("REPORT " \o ToJson([l |-> n, i |-> 0, class |-> c, devs |-> <<"Float64Bounds">>, kind |-> "gotype",
                              ref |-> "narrowest type holding the admitted interval", obs |-> e.gotype, impl |-> "-"]))
